@@ -61,7 +61,7 @@ pub struct Config {
 pub use mediasan_common::{Report, SeekSkipAdapter, Skip};
 
 /// Maximum file length as permitted by WebP.
-pub const MAX_FILE_LEN: u32 = u32::MAX - 2;
+pub const MAX_FILE_LEN: u32 = u32::MAX - 1;
 
 /// Verification hook: capacity of the bit buffer used when sanitizing lossless image data (default 4096).
 #[cfg(signalapp_mp4san_verif)]
